@@ -27,10 +27,17 @@ def impl(inp):
     agents = G.build_agents(wags, move_range=max(rows, cols))
     grid = G.build_grid(rows, cols, wov, ov_ints=bool(len(wags) % 2))
     actors = {}
-    # MoveActor's constructor assigns action spaces from move_range; build each actor once
-    actors[0] = MoveActor(grid=grid, agents=agents)
-    actors[1] = CrossMoveActor(grid=grid, agents=agents)
-    actors[2] = DriftMoveActor(grid=grid, agents=agents)
+    # MoveActor's constructor assigns action spaces from move_range; build each actor once.
+    # Half of the cases: the actors are built on another grid (other size, everything overlaps) and
+    # get THE grid through the public `grid` setter afterwards: bounds and occupancy must follow it
+    first = grid
+    if (rows * 3 + cols + len(wags)) % 2:
+        first = G.build_grid(rows + 2, max(1, cols - 1), [[1, [1, 2, 3]], [2, [2, 3]], [3, [3]]])
+    actors[0] = MoveActor(grid=first, agents=agents)
+    actors[1] = CrossMoveActor(grid=first, agents=agents)
+    actors[2] = DriftMoveActor(grid=first, agents=agents)
+    for a_ in actors.values():
+        a_.grid = grid
     G.place_initial(grid, agents, wags)
     out = [G.snapshot(grid, agents), []]
     for op in ops:
